@@ -458,6 +458,10 @@ impl IoLoop {
                         // away, possibly in this very read. The close handshake is complete,
                         // so whatever the socket does afterwards is not an error.
                         (Err(_), ConnectionState::ClientClosed) => (),
+                        // The server has told us why it is closing. Whatever its socket does
+                        // after that - it may hang up without waiting for our CloseOk - does
+                        // not replace that reason.
+                        (Err(_), ConnectionState::ServerClosing(_)) => (),
                         (result, _) => result?,
                     }
                 }
